@@ -16,7 +16,7 @@ ALLFLAGS = ["CHK_C01", "CHK_C02", "CHK_C03", "CHK_C04", "CHK_C05", "CHK_C06", "C
 P = {
     "C01": dict(flags=["CHK_C01", "C01_TABLE", "CHK_LANG", "CHK_LANGSET"], sections=["graph", "table", "parses"],
                 cat=dict(exclude=["arconf"]), profiles=["mix", "det", "nonlalr", "det", "conflict", "mix"],
-                n=dict(quick=70, thorough=900), recovery="off",
+                n=dict(quick=160, thorough=1500), recovery="off",
                 inputs=dict(allstr_cap=160, allstr_maxlen=5, sentences=8, corrupt=6, maxlen=24, random=3),
                 env=dict(LANGL=4), budget_ms=100, corrupt="cell"),
     "C02": dict(flags=["CHK_C02", "CHK_C02PARSE", "REPLAY_PAGER"], sections=["pager", "graph", "table", "parses"],
